@@ -145,3 +145,163 @@ impl Peer {
         }
     }
 }
+
+// ---------------------------------------------------------------------------------------------
+// Connection fixture for the service-level properties: one server per worker process, one
+// transport (= one connection with its own MessageHandler and SecureChannel) per case.
+
+use opcua::core::comms::secure_channel::SecureChannel as Sc;
+use opcua::server::comms::transport::Transport;
+use opcua::server::session::Session;
+use opcua::sync::RwLock;
+use std::cell::RefCell;
+use std::sync::Arc;
+
+thread_local! {
+    static WORKER_SERVER: RefCell<Option<(bool, Arc<Server>)>> = const { RefCell::new(None) };
+}
+
+/// The worker's server (created on first use; a second flavour replaces the first).
+pub fn worker_server(clients_can_modify_address_space: bool) -> Arc<Server> {
+    WORKER_SERVER.with(|s| {
+        let mut s = s.borrow_mut();
+        match &*s {
+            Some((f, srv)) if *f == clients_can_modify_address_space => srv.clone(),
+            _ => {
+                let srv = Arc::new(server(&SrvOpts { clients_can_modify_address_space, ..SrvOpts::default() }));
+                *s = Some((clients_can_modify_address_space, srv.clone()));
+                srv
+            }
+        }
+    })
+}
+
+/// Replaces the server's address space by a fresh standard one (≈ 20 ms).
+pub fn reset_address_space(server: &Server) {
+    let a = server.address_space();
+    let mut a = a.write();
+    *a = AddressSpace::new();
+    a.set_server_state(server.server_state());
+}
+
+pub struct Conn {
+    pub t: TcpTransport,
+    pub server: Arc<Server>,
+    pub next_request_id: u32,
+    pub next_handle: u32,
+}
+
+pub fn status_of(m: &SupportedMessage) -> StatusCode {
+    m.response_header().service_result
+}
+
+pub fn is_fault(m: &SupportedMessage) -> bool {
+    matches!(m, SupportedMessage::ServiceFault(_))
+}
+
+impl Conn {
+    /// New connection on the worker's server: HEL + OPN(None). Sessions left behind by earlier cases are
+    /// cleared first (the session manager is shared by all connections of a server).
+    pub fn open(server: Arc<Server>) -> Conn {
+        let mut t = server.new_transport();
+        {
+            let sm = t.session_manager();
+            let mut sm = sm.write();
+            sm.clear(server.address_space());
+        }
+        let mut peer = Peer::new();
+        if let Err(e) = peer.handshake(&mut t) {
+            crate::engine::harness_error(&format!("fixture handshake failed: {}", e));
+        }
+        Conn { t, server, next_request_id: 100, next_handle: 1000 }
+    }
+
+    pub fn secure_channel(&self) -> Arc<RwLock<Sc>> {
+        self.t.verif_secure_channel()
+    }
+
+    pub fn header(&mut self, token: &NodeId) -> RequestHeader {
+        self.next_handle += 1;
+        let mut h = RequestHeader::new(token, &DateTime::now(), self.next_handle);
+        h.timeout_hint = 0;
+        h
+    }
+
+    /// Hands a request to the connection's message handler; returns what it queued for sending.
+    pub fn send(&mut self, msg: &SupportedMessage) -> (Result<(), StatusCode>, Vec<SupportedMessage>) {
+        self.next_request_id += 1;
+        let (r, out) = self.t.verif_handle_message(self.next_request_id, msg);
+        (r, out.into_iter().map(|x| x.1).collect())
+    }
+
+    /// A request that is answered immediately with exactly one message.
+    pub fn call(&mut self, msg: impl Into<SupportedMessage>) -> SupportedMessage {
+        let msg: SupportedMessage = msg.into();
+        let (r, mut out) = self.send(&msg);
+        if out.len() != 1 {
+            // Publish is asynchronous; everything else answers once
+            return ServiceFault::new(&RequestHeader::dummy(), r.err().unwrap_or(StatusCode::BadNothingToDo)).into();
+        }
+        out.remove(0)
+    }
+
+    /// CreateSession with policy None; returns (session id, authentication token)
+    pub fn create_session(&mut self, timeout_ms: f64) -> Result<(NodeId, NodeId), StatusCode> {
+        let h = self.header(&NodeId::null());
+        let r = self.call(CreateSessionRequest {
+            request_header: h,
+            client_description: ApplicationDescription::default(),
+            server_uri: UAString::null(),
+            endpoint_url: UAString::from(ENDPOINT_URL),
+            session_name: UAString::from("verif"),
+            client_nonce: ByteString::null(),
+            client_certificate: ByteString::null(),
+            requested_session_timeout: timeout_ms,
+            max_response_message_size: 0,
+        });
+        match r {
+            SupportedMessage::CreateSessionResponse(r) => Ok((r.session_id, r.authentication_token)),
+            other => Err(status_of(&other)),
+        }
+    }
+
+    pub fn anonymous_token() -> ExtensionObject {
+        ExtensionObject::from_encodable(ObjectId::AnonymousIdentityToken_Encoding_DefaultBinary, &AnonymousIdentityToken { policy_id: UAString::from("anonymous") })
+    }
+
+    pub fn user_token(user: &str, pass: &str) -> ExtensionObject {
+        ExtensionObject::from_encodable(
+            ObjectId::UserNameIdentityToken_Encoding_DefaultBinary,
+            &UserNameIdentityToken { policy_id: UAString::from("userpass_none"), user_name: UAString::from(user), password: ByteString::from(pass.as_bytes()), encryption_algorithm: UAString::null() },
+        )
+    }
+
+    pub fn activate(&mut self, token: &NodeId, identity: ExtensionObject) -> StatusCode {
+        let h = self.header(token);
+        let r = self.call(ActivateSessionRequest {
+            request_header: h,
+            client_signature: SignatureData::null(),
+            client_software_certificates: None,
+            locale_ids: None,
+            user_identity_token: identity,
+            user_token_signature: SignatureData::null(),
+        });
+        status_of(&r)
+    }
+
+    /// CreateSession + ActivateSession(anonymous); returns the authentication token
+    pub fn session(&mut self) -> NodeId {
+        let (_, token) = self.create_session(3_600_000.0).unwrap_or_else(|e| crate::engine::harness_error(&format!("fixture CreateSession failed: {}", e)));
+        let st = self.activate(&token, Conn::anonymous_token());
+        if st.is_bad() {
+            crate::engine::harness_error(&format!("fixture ActivateSession failed: {}", st));
+        }
+        token
+    }
+
+    pub fn session_object(&self, token: &NodeId) -> Option<Arc<RwLock<Session>>> {
+        let sm = self.t.session_manager();
+        let sm = sm.read();
+        sm.find_session_by_token(token)
+    }
+}
